@@ -270,6 +270,36 @@ DiamondAct ==
                          ew("add", a + 3, a + 4, 0)>>,
                     <<vv, v0>> \o (IF base = "mb" THEN <<v1>> ELSE <<>>) \o <<v2, v3, v4, v5, v6>>)
 
+\* "Share": a base x (a random array in the directed corpora) combined with an intermediate w that has a second consumer,
+\* so that w is fused into a group of its own and the group of x has to be rebuilt around it (C23: rebuilding the group
+\* must not re-instantiate x as another realization; C02 / C06 for other bases):
+\*   a = a from_array source of x's shape;  w = (a + 1) * 2;  c = max(w) | sum(w) | flip(w)
+\*   z = (x + w * k) fin c     or    (w * k + x) fin c           fin in {sub, mul}
+ShareAct ==
+  /\ Allowed("Share") /\ CanStep
+  /\ \E x \in Pick(LET cand == {h \in Live : Rank(env[h]) >= 1 /\ env[h].kind \in {"i", "f"}}
+                        rnd == {h \in cand : prog[h].a = "Random"}
+                    IN IF rnd # {} THEN rnd ELSE cand) :          \* a random base if the program has one
+     \E k \in Pick({3, 14}) : \E second \in Pick({"max", "sum", "flip"}) : \E swp \in Pick({TRUE, FALSE}) : \E fin \in Pick({"sub", "mul"}) :
+       LET n == Len(env)
+           sh == env[x].shape
+           allax == 1..Len(sh)
+           a == MkSrc(sh, "i", 1)
+           w1 == Binary("add", a, Scalar(1, "i"))
+           w == Binary("mul", w1, Scalar(2, "i"))
+           c == IF second = "flip" THEN Flip(w, 1) ELSE Reduce(second, w, allax, FALSE)
+           t == Binary("mul", w, Scalar(k, "i"))
+           u == IF swp THEN Binary("add", t, env[x]) ELSE Binary("add", env[x], t)
+           z == Binary(fin, u, c)
+           ew(op, p, q, sc) == [a |-> "Elemwise", op |-> op, x |-> p, y |-> q, scalar |-> sc, skind |-> IF q = 0 THEN "i" ELSE "none", swap |-> FALSE]
+       IN MultiPush(<<SrcAct(sh, "i", 1), ew("add", n + 1, 0, 1), ew("mul", n + 2, 0, 2),
+                      IF second = "flip" THEN [a |-> "Flip", x |-> n + 3, axis |-> 1]
+                      ELSE [a |-> "Reduce", op |-> second, x |-> n + 3, axes |-> SetToSeqAsc(allax), keepdims |-> FALSE, split_every |-> 0, ok |-> TRUE],
+                      ew("mul", n + 3, 0, k),
+                      IF swp THEN ew("add", n + 5, x, 0) ELSE ew("add", x, n + 5, 0),
+                      ew(fin, n + 6, n + 4, 0)>>,
+                    <<a, w1, w, c, t, u, z>>)
+
 \* map_blocks with a grid-independent function given in three ways: a function of the harness ("double": 2x), an importable
 \* NumPy function ("npround": the identity on integers), and a WRAPPER that carries the NumPy function's module and qualified
 \* name (functools.wraps) but computes 2 * round(x) ("borrowed": tokenizers that trust the advertised identity confuse the two)
@@ -744,7 +774,7 @@ PersistAct ==
 
 Next ==
   \/ Start
-  \/ RechunkSpecAct \/ MapBlocksAct \/ BlockFirstAct \/ IndexNone \/ DiamondAct \/ MapBlocks2Act \/ JoinAct \/ EinsumAct \/ MapPlainAct \/ SetItemAct \/ MaskSetAct \/ OutUfuncAct \/ MaskSelectAct \/ UnknownAct \/ ComputeChunkSizesAct \/ RandomAct \/ AdvIndexAct \/ DiagonalAct \/ StackMismatchAct \/ OverlapAct \/ PersistAct
+  \/ RechunkSpecAct \/ MapBlocksAct \/ BlockFirstAct \/ IndexNone \/ DiamondAct \/ ShareAct \/ MapBlocks2Act \/ JoinAct \/ EinsumAct \/ MapPlainAct \/ SetItemAct \/ MaskSetAct \/ OutUfuncAct \/ MaskSelectAct \/ UnknownAct \/ ComputeChunkSizesAct \/ RandomAct \/ AdvIndexAct \/ DiagonalAct \/ StackMismatchAct \/ OverlapAct \/ PersistAct
   \/ Index \/ Elemwise \/ UnaryAct \/ AsTypeAct \/ TransposeAct \/ ReshapeAct \/ ExpandSqueeze \/ FlipRoll
   \/ ConcatStack \/ RechunkAct \/ ReduceAct \/ ArgReduce \/ CumulativeAct \/ DiffAct \/ WhereAct \/ TakeAct
   \/ BroadcastAct \/ WindowAct \/ WindowReduce \/ DotAct \/ PadRepeat \/ TopKAct
